@@ -112,6 +112,9 @@ struct Rep {
     reg_at: usize,
     gone_at: Option<usize>,
     sink_failed_at: Option<usize>,
+    /// op index after which the router had been handed an Err by this replier's sink at
+    /// poll_ready / poll_flush (a broken connection): from then on it must be unbound
+    unbind_observed_at: Option<usize>,
     answered: HashSet<(usize, usize)>,
     emitted: Vec<Emitted>,
     junk_pushed: usize,
@@ -294,7 +297,7 @@ fn run_inner(case: &RrCase, opts: RrOpts, facts: &mut RrFacts) -> Result<(), Out
                             }
                             last_rejected_reg = Some(idx);
                         }
-                        reps.push(Rep { si, st, reg_at: idx, gone_at: None, sink_failed_at: None, answered: HashSet::new(), emitted: vec![], junk_pushed: 0 });
+                        reps.push(Rep { si, st, reg_at: idx, gone_at: None, sink_failed_at: None, unbind_observed_at: None, answered: HashSet::new(), emitted: vec![], junk_pushed: 0 });
                         queued += 1;
                         this_is_reg = true;
                     }
@@ -551,6 +554,15 @@ fn run_inner(case: &RrCase, opts: RrOpts, facts: &mut RrFacts) -> Result<(), Out
         }
         if !matches!(op, RrOp::Run | RrOp::Poll | RrOp::Settle) {
             last_was_reg = this_is_reg;
+        } else {
+            for p in reps.iter_mut() {
+                if p.unbind_observed_at.is_none() {
+                    let st = p.si.0.lock().unwrap();
+                    if st.observed_fail && (st.fail == FAIL_READY || st.fail == FAIL_FLUSH) {
+                        p.unbind_observed_at = Some(idx);
+                    }
+                }
+            }
         }
     }
     let _ = closed_at;
@@ -590,6 +602,7 @@ fn run_inner(case: &RrCase, opts: RrOpts, facts: &mut RrFacts) -> Result<(), Out
             && (0..k).all(|j| {
                 status[j] == St::MustReject
                     || reps[j].gone_at.map_or(false, |g| first_settle_after(g).map_or(false, |s| s < p.reg_at))
+                    || reps[j].unbind_observed_at.map_or(false, |g| first_settle_after(g).map_or(false, |s| s < p.reg_at))
             });
         let must_reject = !closed
             && (0..k).any(|j| {
@@ -832,7 +845,11 @@ fn run_inner(case: &RrCase, opts: RrOpts, facts: &mut RrFacts) -> Result<(), Out
     // ---- probe: the topic keeps serving (C08 / C11) ----
     if opts.probe && !closed && ex.dead.is_none() {
         let bound_alive = reps.iter().enumerate().any(|(k, p)| status[k] == St::MustBind && p.gone_at.is_none() && !p.si.failed());
-        let all_gone_or_rejected = reps.iter().enumerate().all(|(k, p)| p.gone_at.is_some() || status[k] == St::MustReject);
+        // the closing phase ended with a clean settle, so an observed failure has been acted on
+        let all_gone_or_rejected = reps.iter().enumerate().all(|(k, p)| p.gone_at.is_some() || status[k] == St::MustReject || {
+            let st = p.si.0.lock().unwrap();
+            st.observed_fail && (st.fail == FAIL_READY || st.fail == FAIL_FLUSH)
+        });
         let mut probe_rep: Option<(MockSink, MockStream)> = None;
         if !bound_alive && all_gone_or_rejected {
             let (si, st) = (MockSink::new(1000), MockStream::default());
